@@ -29,7 +29,7 @@ def build(c):
     grout = Grout(1.0, 3901000.0)
     fluid = GHEFluid(c.get("fluid", "water"), c.get("conc", 0.0))
     H = c.get("H", 100.0)
-    b = GHEBorehole(H, 2.0, 0.075, 0.0, 0.0)
+    b = GHEBorehole(H, 2.0, c.get("rb", 0.075), 0.0, 0.0)
     B = c.get("B", 5.0)
     coords = rectangle(c.get("nx", 2), c.get("ny", 2), B, B)
     sp = SimulationParameters(1, c.get("months", 12), 35, 5, c.get("hmax", 135.0), c.get("hmin", 60.0))
@@ -38,9 +38,10 @@ def build(c):
     v_sys = fval * nbh if ftype == "BOREHOLE" else fval
     m_bh = v_sys / nbh / 1000.0 * fluid.rho
     heights = c.get("heights", [H])
-    g = calc_g_func_for_multiple_lengths(B, heights, 0.075, 2.0, m_bh, bt, eskilson_log_times(), coords, fluid, pipe, grout, soil)
+    g = calc_g_func_for_multiple_lengths(B, heights, c.get("rb_table", c.get("rb", 0.075)), 2.0, m_bh, bt, eskilson_log_times(), coords, fluid, pipe, grout, soil)
     loads = e2e.synthetic_loads(c["loads"])
     ghe = GHE(v_sys, B, bt, fluid, b, pipe, grout, soil, g, sp, loads)
+    ghe._verif_loads = [float(x) for x in loads]        # the hourly series as handed to the constructor (W, extraction positive)
     return ghe
 
 
@@ -77,6 +78,25 @@ def run_c09(c):
     if c.get("want_K", True):
         gfun = captured["g"]
         out["K"] = [[float(gfun(log((tv[i] - tv[k]) * 3600.0 / ts))) for k in range(i)] for i in range(1, min(nmax, n) + 1)]
+    if method == TimestepType.HOURLY:
+        # the whole load sequence and time axis of an hourly run: the year of loads handed to the constructor, repeated end to end,
+        # one step per hour of the horizon (the property's q_i and t_i for the hourly method)
+        months = c.get("months", 12)
+        want_n = int(months / 12.0 * 8760.0)
+        year = [-x for x in ghe._verif_loads]
+        want_q = (year * (-(-want_n // 8760)))[:max(want_n, 0)] if len(year) == 8760 else None
+        if want_q is not None:
+            bad = next((i for i in range(min(len(want_q), n)) if want_q[i] != captured["q"][i] or captured["t"][i] != float(i + 1)), None)
+            out["sequence"] = {"expected_steps": want_n, "steps": n, "first_difference": bad,
+                               "detail": None if bad is None else {"step": bad + 1, "q": captured["q"][bad], "q_expected": want_q[bad], "t": captured["t"][bad]}}
+            late = {}
+            for st in c.get("late_steps", []):
+                if 1 <= st <= min(n, want_n):
+                    gfun = captured["g"]
+                    late[str(st)] = {"hp_eft": float(ghe.hp_eft[st - 1]),
+                                     "K": [float(v) for v in gfun(np.log((st - np.arange(0, st)) * 3600.0 / ts))]}
+            out["late"] = late
+            out["year_q_W"] = year
     # the property's raw inputs: field loads in W at each step, hours
     if method == TimestepType.HYBRID:
         out["raw_q_W"] = [float(x) * 1000.0 for x in ghe.hybrid_load.load[2:2 + nmax]]
@@ -122,7 +142,7 @@ def run_ops(c):
                 mx, mn = ghe.simulate(method=M[op[0]])
                 rec.update(ret=[mx, mn])
             elif op[0] == "size":
-                last_m = "hybrid"
+                last_m = op[1] if len(op) > 1 and op[1] in M else "hybrid"
                 evals = []
                 orig = ghe.simulate
 
@@ -130,11 +150,21 @@ def run_ops(c):
                     evals.append(float(ghe.bhe.b.H))
                     return _o(method=method)
                 ghe.simulate = spy
+                import ghedesigner.ground_heat_exchangers as GM
+                real_root = GM.solve_root
+                roots = []
+
+                def root_spy(*a, **k):
+                    r = real_root(*a, **k)
+                    roots.append(float(r))
+                    return r
+                GM.solve_root = root_spy
                 try:
-                    ghe.size(method=TimestepType.HYBRID)
+                    ghe.size(method=M[last_m])
                 finally:
                     del ghe.simulate
-                rec.update(evals=evals)
+                    GM.solve_root = real_root
+                rec.update(evals=evals, root=(roots[-1] if roots else None))
             rec["H"] = float(ghe.bhe.b.H)
             if len(ghe.hp_eft) > 0 and last_m is not None:
                 rec["stored"] = [max(ghe.hp_eft), min(ghe.hp_eft), len(ghe.hp_eft)]
